@@ -3,7 +3,7 @@
    the same whitened quadratic form r^T S^-1 r and the same log-determinant: the two statements below do not
    depend on which factorisation algorithm produced L. *)
 From mathcomp Require Import all_ssreflect all_algebra.
-From TinyGP Require Import Base.Ops Base.LMat Model.GP Theory.MxRefine Theory.QSMDen Theory.QSMMulAbs Theory.Gauss Theory.KalmanAbs Theory.KalmanThy.
+From TinyGP Require Import Base.Ops Base.LMat Model.GP Theory.MxRefine Theory.QSMDen Theory.QSMMulAbs Theory.Gauss Theory.KalmanAbs Theory.KalmanThy Theory.KalmanRev.
 From TinyGP Require Import Model.QSMCore Model.SSKernel Theory.QSMMatmul Theory.SSK.
 Set Implicit Arguments. Unset Strict Implicit. Unset Printing Implicit Defensive.
 Import Order.TTheory GRing.Theory Num.Theory.
@@ -55,6 +55,41 @@ Theorem C03_kalman_det_exact (F : fieldType) sq lt n m (Pinf : mat F) (A : seq (
 Proof. by move=> reg; exact: (kalman_det_exact sq lt reg). Qed.
 Print Assumptions C03_kalman_det_exact.
 
+(* ---- KalmanSolver itself (model: GP.kalman_solver) ----
+   The solver orders its tables from the LAST datum to the first (self.A = A[:1] ++ A[:0:-1], H[::-1], diag[::-1], y[::-1]).
+   For EVERY kernel record with a symmetric stationary covariance -- arbitrary transition matrices, arbitrary observation vectors,
+   so including structured-coordinate wrappers whose observation model changes direction from point to point -- the covariance
+   of the state-space model swept in that order is the matrix of Quasisep.to_symm_qsm(X) plus the diagonal noise, conjugated by
+   the order-reversing permutation. *)
+Theorem C03_kalman_solver_is_quasisep (F : fieldType) sq lt X (k : sskernel F X) (x0 : X) (xs : seq X) (dg : vec F) :
+  (Pm k)^T = Pm k -> size dg = size xs ->
+  kalman_S (size xs) (ssm k) (ssP k) (kalman_order (kal_A k x0 xs)) (rev (kal_H k x0 xs)) (rev dg)
+  = revmx (den (size xs) (to_symm_qsm (fops sq lt) k x0 xs) + Dm (size xs) (fun i => nth 0 dg i)).
+Proof. move=> ps sd; exact: (kalman_S_revmx sq lt x0 ps sd). Qed.
+Print Assumptions C03_kalman_solver_is_quasisep.
+
+(* hence what it reports is the Gaussian log likelihood of K + N, K the quasiseparable matrix: prod s_k = det (K + N) and
+   sum v_k^2 / s_k = y^T (K + N)^-1 y, where (v / sqrt s, s) is what GP.kalman_solver returns *)
+Theorem C03_kalman_solver_logp (F : fieldType) sq lt X (k : sskernel F X) (x0 : X) (xs : seq X) (dg y : vec F) (Xc : 'cV[F]_(size xs)) :
+  let n := size xs in let m := ssm k in
+  let A' := kalman_order (kal_A k x0 xs) in let H' := rev (kal_H k x0 xs) in
+  let S := den n (to_symm_qsm (fops sq lt) k x0 xs) + Dm n (fun i => nth 0 dg i) in
+  let g := kalman_gains (fops sq lt) n m (ssP k) A' H' (rev dg) in
+  let v := kalman_filter (fops sq lt) n m A' H' (map snd g) (rev y) in
+  (Pm k)^T = Pm k -> size dg = n -> size y = n ->
+  (forall j, (j <= n)%N -> \det (kalman_Sk m (ssP k) A' H' (rev dg) j) != 0) ->
+  [/\ kalman_solver (fops sq lt) n m (ssP k) (kal_A k x0 xs) (kal_H k x0 xs) dg y
+       = (vmk n (fun j => odiv (fops sq lt) (nth 0 v j) (osqrt (fops sq lt) (nth 0 (map fst g) j))), map fst g),
+      \det S = \prod_(j < n) nth 0 (map fst g) j &
+      S *m Xc = \col_(i < n) nth 0 y i ->
+      (\col_(i < n) nth 0 y i)^T *m Xc = (\sum_(j < n) nth 0 v j ^+ 2 / nth 0 (map fst g) j)%:M].
+Proof.
+move=> n m A' H' S g v ps sd sy reg; split; first by [].
+- exact: (kalman_solver_det sq lt ps sd reg).
+- exact: (kalman_solver_quadratic ps sd sy reg).
+Qed.
+Print Assumptions C03_kalman_solver_logp.
+
 (* for time-invariant models (constant observation vector, commuting transition matrices, symmetric stationary covariance:
    all built-in quasiseparable kernels, their scalings, sums and products on scalar coordinates) that covariance is the
    matrix of Quasisep.to_symm_qsm (p = h Pinf a, q = h, d = h Pinf h) plus the diagonal noise, i.e. the matrix factorised
@@ -66,8 +101,8 @@ Theorem C03_kalman_cov_is_quasisep_cov (F : fieldType) n m (Pinf : 'M[F]_m) (a :
 Proof. exact: kalman_cov_lti. Qed.
 Print Assumptions C03_kalman_cov_is_quasisep_cov.
 
-(* the same at the level of the kernel record: with the tables that KalmanSolver.__init__ derives from the kernel
-   (A_k = transition(x_(k-1), x_k), H_k = observation_model(x_k), Pinf), for a time-invariant kernel (constant observation
+(* the same at the level of the kernel record, for the tables in FORWARD order
+   (A_k = transition(x_(k-1), x_k), H_k = observation_model(x_k), Pinf): for a time-invariant kernel (constant observation
    model, commuting transition matrices, symmetric Pinf) the covariance of the Kalman model is the matrix of
    Quasisep.to_symm_qsm(X) plus the diagonal noise: the matrix whose Cholesky factor the quasiseparable solver uses *)
 Theorem C03_kalman_S_is_quasisep (F : fieldType) sq lt X (k : sskernel F X) (x0 : X) (xs : seq X) (dg : vec F) (h0 : 'rV[F]_(ssm k)) :
@@ -91,3 +126,22 @@ Theorem C03_builtin_kernels_kalman (scale sigma a b c d : R) (x0 : R) (xs dg : s
       S (k_Celerite a b c d) = Q (k_Celerite a b c d)].
 Proof. exact: builtin_kernels_kalman. Qed.
 Print Assumptions C03_builtin_kernels_kalman.
+
+(* and for the tables in the order KalmanSolver uses (last datum first), end to end for the regenerated built-in kernels:
+   only the symmetry of the stationary covariance is needed (part of the laws proved in W2/QSLaws.v) *)
+Theorem C03_builtin_kernels_kalman_solver (scale sigma a b c d : R) (x0 : R) (xs dg : seq R) :
+  size dg = size xs ->
+  let S k := kalman_S (size xs) (ssm k) (ssP k) (kalman_order (kal_A k x0 xs)) (rev (kal_H k x0 xs)) (rev (dg : seq Rf)) in
+  let Q k := revmx (den (size xs) (to_symm_qsm rfops k x0 xs) + Dm (size xs) (fun i => nth (0 : Rf) dg i)) in
+  [/\ S (k_Exp scale sigma) = Q (k_Exp scale sigma), S (k_Matern32 scale sigma) = Q (k_Matern32 scale sigma),
+      S (k_Matern52 scale sigma) = Q (k_Matern52 scale sigma), S (k_Cosine scale sigma) = Q (k_Cosine scale sigma) &
+      S (k_Celerite a b c d) = Q (k_Celerite a b c d)].
+Proof.
+move=> sd S Q; split.
+- exact: (@kalman_S_revmx Rf sqrt Rltb R _ x0 xs dg (P_sym (Exp_laws scale sigma)) sd).
+- exact: (@kalman_S_revmx Rf sqrt Rltb R _ x0 xs dg (P_sym (Matern32_laws scale sigma)) sd).
+- exact: (@kalman_S_revmx Rf sqrt Rltb R _ x0 xs dg (P_sym (Matern52_laws scale sigma)) sd).
+- exact: (@kalman_S_revmx Rf sqrt Rltb R _ x0 xs dg (P_sym (Cosine_laws scale sigma)) sd).
+- exact: (@kalman_S_revmx Rf sqrt Rltb R _ x0 xs dg (P_sym (Celerite_laws a b c d)) sd).
+Qed.
+Print Assumptions C03_builtin_kernels_kalman_solver.
